@@ -970,6 +970,22 @@ def clause_g(ctx: Context, idx) -> None:
                 nm_ = "diag<" + norm(e.args[0])[:30] + ">"
                 self.scalars[nm_] = self.scalar(e.args[0])
                 return ia.diag(nm_)
+            if isinstance(e, tuple) and e and e[0] == "diag":
+                return ia.diag(e[1])
+            if isinstance(e, ast.BinOp) and isinstance(e.op, ast.Mult):
+                # S * d[None, :] = S @ diag(d);  d[:, None] * S = diag(d) @ S
+                for m_, v_, right in ((e.left, e.right, True), (e.right, e.left, False)):
+                    if self.role(m_) == "S" and isinstance(v_, ast.Subscript) and isinstance(v_.slice, ast.Tuple) and len(v_.slice.elts) == 2:
+                        a0, a1 = v_.slice.elts
+                        is_none = lambda x: isinstance(x, ast.Constant) and x.value is None  # noqa: E731
+                        full = lambda x: isinstance(x, ast.Slice) and x.lower is None and x.upper is None  # noqa: E731
+                        nm_ = "diag<" + norm(v_.value)[:30] + ">"
+                        if is_none(a0) and full(a1):
+                            self.scalars[nm_] = self.scalar(v_.value)
+                            return ia.mul(ia.general(), ia.diag(nm_))
+                        if full(a0) and is_none(a1):
+                            self.scalars[nm_] = self.scalar(v_.value)
+                            return ia.mul(ia.diag(nm_), ia.general())
             if isinstance(e, ast.BinOp):
                 if isinstance(e.op, ast.MatMult):
                     return ia.mul(self.mat(e.left), self.mat(e.right))
@@ -1008,11 +1024,30 @@ def clause_g(ctx: Context, idx) -> None:
                     return flat(self.defs[x.id])
                 return [x]
             fs = flat(e)
+            # conj(d * u) = conj(u) @ diag(conj(d)) for a per-mode vector d
+            if fs and isinstance(fs[0], ast.Call) and (dotted(fs[0].func) or "").split(".")[-1] in ("conj", "conjugate") and fs[0].args \
+                    and isinstance(fs[0].args[0], ast.BinOp) and isinstance(fs[0].args[0].op, ast.Mult):
+                b_ = fs[0].args[0]
+                for d_, u_ in ((b_.left, b_.right), (b_.right, b_.left)):
+                    if self.role(u_) == "u":
+                        nm_ = "conj<" + norm(d_)[:30] + ">"
+                        self.scalars[nm_] = sp.conjugate(self.scalar(d_))
+                        fs = [ast.Call(func=fs[0].func, args=[u_], keywords=[]), ("diag", nm_)] + fs[1:]
+                        break
+            # (d * u) as the last factor = diag(d) @ u
+            if fs and isinstance(fs[-1], ast.BinOp) and isinstance(fs[-1].op, ast.Mult):
+                b_ = fs[-1]
+                for d_, u_ in ((b_.left, b_.right), (b_.right, b_.left)):
+                    if self.role(u_) == "u":
+                        nm_ = "diag<" + norm(d_)[:30] + ">"
+                        self.scalars[nm_] = self.scalar(d_)
+                        fs = fs[:-1] + [("diag", nm_), u_]
+                        break
             if len(fs) < 3 or not (isinstance(fs[0], ast.Call) and (dotted(fs[0].func) or "").split(".")[-1] in ("conj", "conjugate")
                                    and fs[0].args and self.role(fs[0].args[0]) == "u") or self.role(fs[-1]) != "u":
                 raise AnalysisError(f"C09g: the exponent `{norm(e)[:60]}` is not of the form conj(u) @ ... @ u (undecided)")
             mid = fs[1:-1]
-            invs = [i_ for i_, f_ in enumerate(mid) if isinstance(f_, tuple)]
+            invs = [i_ for i_, f_ in enumerate(mid) if isinstance(f_, tuple) and f_[0] == "inv"]
             if len(invs) != 1:
                 raise AnalysisError("C09g: the kernel does not contain exactly one inverse (undecided)")
             L, R = ia.ident(), ia.ident()
